@@ -253,7 +253,6 @@ SPECS["C12"]["queries"] += [
     c12m("rs_malloc_a3", "harness_malloc", "thorough", 3, 4, 1, timeout=2400),
     c12m("rs_free_a3", "harness_free", "thorough", 3, 4, 1, timeout=2400),
     c12m("rs_realloc_a3", "harness_realloc", "thorough", 3, 4, 1, timeout=3000),
-    c12m("rs_malloc_a2_64", "harness_malloc", "thorough", 2, 6, 3, timeout=2400),
 ]
 
 
